@@ -53,10 +53,11 @@ def run_chain(arg):
     hop_items = []
     for f in chain:
         try:
-            nxt, _src = T.hop(f, cur, {})
+            # "docstring+" = the docstring hop with the parser keeping the 'Defaults to' remark in the description
+            nxt, _src = T.hop("docstring", cur, {"parse_emit_default_doc": True}) if f == "docstring+" else T.hop(f, cur, {})
         except Exception as e:  # noqa
             return {"raised": [f, type(e).__name__, str(e)[:100]], "states": states, "docs": docs, "hop_items": hop_items}
-        hop_items.append((f, T.compare(cur, nxt, norm=None, edd=(f == "docstring"))))
+        hop_items.append((f, T.compare(cur, nxt, norm=None, edd=f.startswith("docstring"))))
         states.append({k: state_of(v) for k, v in nxt["params"].items()})
         docs.append({k: T.norm_doc(v.get("doc")) for k, v in nxt["params"].items()})
         cur = nxt
@@ -71,6 +72,8 @@ def worker(batch):
         # model: per parameter, per chain
         queries, index = [], []
         for ci, ch in enumerate(chains):
+            if "docstring+" in ch:
+                continue        # not a format of Model/Norm.v
             for name, p in ir["params"].items():
                 et = enc_typ(p["typ"])
                 queries.append([list(ch), [et, enc_def(p)]])
@@ -106,6 +109,8 @@ def worker(batch):
                     if name in rewritten:
                         out["outside_model"] += 1
                         continue
+                    if (ci, name) not in by:
+                        continue
                     out["compared"] += 1
                     m = by[(ci, name)][hi]
                     got = states.get(name)
@@ -127,9 +132,18 @@ def collect(ctx, n_ir, n3):
         stable = i % 2 == 0
         ir = gen_ir(rng, stable)
         chains = all2 + rng.sample(all3, min(n3, len(all3)))
+        chains += [[rng.choice(FORMATS), "docstring+", rng.choice(FORMATS)] for _ in range(3)]
         if not ctx.quick:
             chains += [[rng.choice(FORMATS) for _ in range(rng.randint(4, 5))] for _ in range(6)]
         work.append((ir, stable, chains))
+    # corpus: negative numbers and None defaults on every kind of type, all chains of length 2 and 3
+    from collections import OrderedDict
+    corpus_ir = {"name": "Thing", "doc": "Thing description.", "returns": None, "params": OrderedDict((
+        ("axis", {"typ": "int", "doc": "the value", "default": -1}),
+        ("scale", {"typ": "Optional[float]", "doc": "size in bytes", "default": -3.0}),
+        ("count", {"typ": "Optional[int]", "doc": "first item to use", "default": -5}),
+        ("label", {"typ": "str", "doc": "extra flag", "default": "2"})))}
+    work.append((corpus_ir, False, all2 + all3 + [["docstring+", f] for f in FORMATS] + [[g, "docstring+", f] for g in FORMATS for f in FORMATS]))
     agg = {"n": 0, "chains": 0, "stable_chains": 0, "outside_model": 0, "compared": 0}
     items, corr = [], []
     for r in run_cases(worker, [[w] for w in work], chunk=1):
